@@ -16,7 +16,7 @@ table = ("| seeded change | touches | needs, in order to manifest | checks run |
 p = os.path.join(V, "DESIGN.md")
 s = open(p).read()
 a = s.index("### 11.4 What catches what")
-b = s.index("\n---------------------------------------------------------------------------------\n\n## Appendix A")
+b = s.index("\n### 11.5 Per property, as built")
 intro = open(os.path.join(V, "design-notes", "catches-intro.md")).read()
 s = s[:a] + "### 11.4 What catches what\n\n" + intro + "\n" + table + s[b:]
 open(p, "w").write(s)
